@@ -214,10 +214,10 @@ func init() {
 		Title: "compiled expressions and Search are safe for concurrent use",
 		Rule: "2 (thorough: also 3) goroutines call Expression.Search / Search / Compile concurrently on one shared compiled Expression and shared read-only documents (arrays with spare capacity holding sentinels), the same expression or two different ones that start from the same part of a document, " +
 			"from a fresh state and after the expression has failed half-way on a third document; the library yields at every function entry, every loop iteration and every operation on a sync type (sync.Mutex, RWMutex, Once, Pool and Map are replaced by scheduler-aware models: a lock wait is a blocked task, all tasks blocked is a deadlock), and the explorer decides which goroutine runs between two yields; " +
-			"quick: every schedule with at most 2 preemptions (iterative bounding 0, 1, 2; 1 for executions of more than 100 steps; for executions of more than 400 steps a preemption is tried at every 8th yield point only); thorough: every reachable scheduler state (vector of yield counts, with state-key pruning) for 2 goroutines when the library keeps no state, else bound 3; " +
+			"quick: every schedule with at most 2 preemptions (iterative bounding 0, 1, 2; 1 for executions of more than 100 steps; for executions of more than 400 steps a preemption is tried at every 8th yield point only, for executions of more than 2000 steps at about 250 evenly spaced yield points); thorough: every reachable scheduler state (vector of yield counts, with state-key pruning) for 2 goroutines when the library keeps no state, else bound 3; " +
 			"every execution starts from the package-level state the process had before its first library call (saved and restored by deep copy); in every state the hash of everything shared (AST behind the Expression, the documents incl. hidden capacity, and - when the library uses no sync primitive - every package-level variable) must equal its initial value, and at the end every call's outcome must equal its solo outcome; " +
 			"a second phase runs the same scenario bodies free-running under the race detector; non-trivial = a schedule with at least one context switch; distinct_nontrivial counts distinct schedules among them",
-		Phases: []core.Phase{{Name: "schedules", Build: "instr", Fn: c07Run}, {Name: "race-detector", Build: "race", Procs: 4, Fn: c07RunRace, CrashIsViolation: true}},
+		Phases: []core.Phase{{Name: "schedules", Build: "instr", Procs: 120, Fn: c07Run}, {Name: "race-detector", Build: "race", Procs: 4, Fn: c07RunRace, CrashIsViolation: true}},
 		Judge:  c07Judge,
 		Assumptions: []string{
 			"scheduling points are function entries, loop iterations and sync operations of the four packages; a race confined to straight-line code is visible through the shared-state hash (any write to shared state is reported whatever the interleaving) and through the free-running race-detector pass",
@@ -470,8 +470,8 @@ func c07Bounded(r *core.Run, sc c07Scenario, want []core.Obs, bound int) {
 			return
 		}
 		for i := len(prefix); i < len(x.Steps); i++ {
-			if len(x.Steps) > 400 && i%8 != 0 {
-				continue // very long calls: a preemption is tried at every 8th yield point only (stated in the rule)
+			if stride := c07Stride(len(x.Steps)); i%stride != 0 {
+				continue // very long calls: a preemption is tried at every stride-th yield point only (stated in the rule)
 			}
 			s := x.Steps[i]
 			cost := x.PreemptionsBefore(i)
@@ -488,6 +488,18 @@ func c07Bounded(r *core.Run, sc c07Scenario, want []core.Obs, bound int) {
 		}
 	}
 	explore(nil)
+}
+
+// c07Stride: executions of more than 400 steps are preempted at every 8th yield point, executions of more than 2000 steps
+// at about 250 evenly spaced yield points.
+func c07Stride(steps int) int {
+	switch {
+	case steps <= 400:
+		return 1
+	case steps <= 2000:
+		return 8
+	}
+	return steps / 250
 }
 
 // c07AllStates: every reachable scheduler state, pruned by (yield-count vector, shared-state hash).
